@@ -54,6 +54,17 @@ func handSpecs() []*Spec {
 				{Name: "paint", Type: "Color", Args: []ArgSpec{{"c", "Color!"}}, Req: []string{"a"}},
 			}},
 		)},
+		// connections implementing a gated / an ungated connection interface
+		{Query: "Query", ConnIfaces: []ConnIface{{Prefix: "Things", Node: "Item"}, {Prefix: "BetaThings", Node: "Item", Req: []string{"b"}}}, Types: append(withBuiltins(
+			TypeSpec{Kind: "object", Name: "Item", Fields: []FieldSpec{{Name: "n", Type: "Int"}}},
+			TypeSpec{Kind: "object", Name: "Query", Fields: []FieldSpec{
+				{Name: "ok", Type: "Boolean"},
+				{Name: "things", Type: "ThingsConnection"},
+				{Name: "betaThings", Type: "BetaThingsConnection", Req: []string{"b"}},
+				{Name: "items", Conn: &ConnSpec{Prefix: "Item", Node: "Item", Impl: []string{"Things", "BetaThings"}}},
+				{Name: "gatedItems", Req: []string{"a"}, Conn: &ConnSpec{Prefix: "GatedItem", Node: "Item!", Impl: []string{"Things"}}},
+			}},
+		), pageInfoSpec())},
 		// connections with features
 		{Query: "Query", Types: append(withBuiltins(
 			TypeSpec{Kind: "object", Name: "Item", Fields: []FieldSpec{{Name: "n", Type: "Int"}}},
